@@ -99,6 +99,45 @@ class Ctx:
             self._opa_res[name] = self.opa.run(name)
         return self._opa_res[name]
 
+    def path_returns(self, name, seeds=None, inlining=False, limit=96):
+        """for a small loop-free body: [(returned term, path facts, [blocks of the path])], one entry per CFG path, each analysed
+        on its own (the analysis is confined to the blocks of the path) so that every value keeps the guards of its own path -
+        joins before the return block otherwise merge the arms of a `match` / `if`.  None when the body has loops or too many paths."""
+        key = ('path_returns', name, repr(sorted((seeds or {}).items(), key=str)), inlining)
+        if key in self.cache:
+            return self.cache[key]
+        b = self.facts.bodies[name]
+        cfg = self.cfg(b)
+        res_ = None
+        if not cfg.loops():
+            paths = []
+
+            def walk(bb, acc):
+                if len(paths) > limit:
+                    return
+                acc = acc + [bb]
+                succs = [s_ for s_ in cfg.succ[bb] if not b.blocks[s_].get('cleanup')]
+                if b.blocks[bb]['term']['t'] == 'return' or not succs:
+                    if b.blocks[bb]['term']['t'] == 'return':
+                        paths.append(acc)
+                    return
+                for s_ in succs:
+                    walk(s_, acc)
+            walk(0, [])
+            if 0 < len(paths) <= limit:
+                res_ = []
+                allb = set(b.blocks)
+                engine = self.opa if inlining else self.opa0
+                for pth in paths:
+                    sd = dict(seeds or {})
+                    sd['key'] = ('path', name, tuple(pth), sd.get('key'))
+                    rr = engine.run(name, seeds=sd, avoid=allb - set(pth))
+                    got = [(term, pc) for (_, _), (term, pc) in rr.ret_edges.items()] or [(term, pc) for (_, term, pc) in rr.returns]
+                    for term, pc in got:
+                        res_.append((term, pc, pth))
+        self.cache[key] = res_
+        return res_
+
     def run0(self, name):
         if name not in self._opa0_res:
             self._opa0_res[name] = self.opa0.run(name)
